@@ -215,6 +215,18 @@ def run(tier):
                 closed_at = min([e["seq"] for e in evs if e["e"] == "Close" and e["g"] == g] or [10 ** 9])
                 called_at = min([e["seq"] for e in evs if e["e"] == "Call" and e.get("kind") == "Disconnect"] or [10 ** 9])
                 where = "disconnect-after-connection-ended" if closed_at < called_at else "disconnect-on-live-connection"
+            if v["o"] == "C16_ClosedCauseTruthful" and sid in byid and "reqs" in byid[sid]:
+                # timing observer (a PINGRESP that a loaded machine delivers after the response timeout looks like a false
+                # time-out): it has to fail twice more when the scenario runs alone
+                again = 0
+                for a_ in range(2):
+                    sc2 = dict(byid[sid], id=sid + "-again%d" % a_)
+                    r2 = rf.run_scenarios(binary, [sc2], conc=1)
+                    rep2, _ = rf.validate(r2, spec="ConnObs")
+                    again += any(x["o"] == v["o"] for x in rep2[sc2["id"]]["v"])
+                if again < 2:
+                    verd.notes.append("not reproduced: %s %s" % (v["o"], sid))
+                    continue
             verd.witness(v["o"], where, "scenario %s: %s" % (sid, " ".join(dg)), {"scenario": byid[sid], "observer": v["o"], "trace": res["evs"]})
     import dialer_family
     dialer_runs = dialer_family.c16(binary, verd)
